@@ -36,6 +36,18 @@ CHECKS = {
     "C11": ("fault_enumeration", "deterministic simulation with I/O-error injection at every recovery file-system call",
             "DESIGN.md §5 C11", "For each seeded WAL image every readdir/file_type/open/seek/read call of recovery is failed (transient and persistent, several errnos, partial reads); open must return Err(IoError) within a step budget.",
             "Step budget (fault-free calls + 50) is the deterministic definition of 'promptly'; write-path errors not injected."),
+    "C08": ("exploration", "deterministic simulation with storage-damage injection between incarnations: in-place overwrites aimed by an independent WAL parser",
+            "DESIGN.md §5 C08", "Seeded histories x 1-4 aimed or uniform in-place overwrites of the cleanly dropped image; every recovered record must be one that was appended to that queue, positions strictly increasing.",
+            "Up to a CRC-32 collision; membership judged on (position, 64-bit payload digest, length)."),
+    "C09": ("exploration", "deterministic simulation with storage-damage injection: single-frame payload/CRC damage, frames enumerated per image",
+            "DESIGN.md §5 C09", "Per seeded image, frames found by the independent parser are damaged one at a time (all frames x 6 variants in the thorough tier); open must succeed and every retained record whose append was not hit must be intact.",
+            "Frame layout from the independent parser; extra records / missing record-less queues are not violations."),
+    "C10": ("exploration", "deterministic simulation with storage-damage injection: structural damage, PRNG and forged images; panic, step-budget, watchdog and heap oracles",
+            "DESIGN.md §5 C10", "Three generator classes (damaged valid images, PRNG bytes / shuffled valid frames, CRC-valid adversarial entries); open must not panic, exceed the fs step budget or a 20 s watchdog, or allocate more than 16 x image + 1 MiB; accessors of an Ok log must not panic.",
+            "simctl is built with overflow checks and debug assertions: arithmetic overflow counts as a panic."),
+    "C12": ("fault_enumeration", "deterministic simulation with crash, power-loss and frame-damage injection inside batch appends; batch-atomicity oracle",
+            "DESIGN.md §5 C12", "Batch-heavy seeded histories; crash points as C02 (plus power loss under Always(FlushAndFsync)) and single-frame payload/header damage of every frame of batch entries; each batch must be recovered whole, not at all, or minus a truncated leading part.",
+            "As C02 and C08; batches identified by the unique op id inside every payload."),
 }
 
 NOT_YET = {
